@@ -220,11 +220,9 @@ pub fn resolve_tx(m: &mut Model, ws: &[W], excl: &Excl, hz: &Hazard, obs: &mut O
                 let n = nodes[idx(*n, nodes.len())];
                 let name = LABELS[*l as usize % LABELS.len()].to_string();
                 if !label_touched.insert((n, name.clone())) {
-                    // the engine applies all additions of a transaction before all removals;
-                    // two label operations on the same (node, label) in one transaction are
-                    // outside the generated domain
-                    obs.excluded("same-tx-repeated-label-op");
-                    continue;
+                    // label operations take effect in the order they are issued (repaired in
+                    // /repo 1cfe9cd; before that this class was outside the generated domain)
+                    obs.class("same-tx-repeated-label-op");
                 }
                 if excl.label_change_then_checkpoint_reopen && n < created_in_tx_from && hz.later_reopen {
                     obs.excluded("label-change-of-existing-node-before-reopen");
